@@ -629,5 +629,133 @@ def rule_exception_text(ctx):
     rep.require('C12.k', '__str__ / __repr__ definitions of library exceptions', n, 2)
 
 
+def rule_error_conversion(ctx, rule='C12.l'):
+    """C12.l  The error a peer is told is the error that was raised, and the error a requester is handed is the error
+    the peer sent.  exception_to_error_frame: for a protocol error the frame carries the exception's own error code
+    and data, for anything else APPLICATION_ERROR and the exception's text, on the stream id given.
+    error_frame_to_exception: an APPLICATION_ERROR frame becomes a generic exception with the frame's text, every other
+    code a protocol error constructed with the frame's code and text.  RSocketProtocolError keeps the code and the
+    data it was constructed with.  (REJECTED_SETUP / UNSUPPORTED_SETUP / REJECTED / CONNECTION_ERROR reach the wire and
+    the application only through these two functions.)"""
+    rep = ctx.report
+    repo = ctx.repo
+    f = repo.func('rsocket.frame:exception_to_error_frame')
+    g = repo.func('rsocket.frame:error_frame_to_exception')
+    perr = repo.cls('rsocket.exceptions:RSocketProtocolError')
+    if f is None or g is None or perr is None:
+        raise AnalysisError('%s: the error conversions vanished' % rule)
+    exc = ('param', f.qualname, f.params()[1])
+    sid = ('param', f.qualname, f.params()[0])
+    ps = [p for p in ctx.paths(f, None, inline_depth=0) if p.outcome == 'return']
+    ok, detail = len(ps) >= 2, '' if len(ps) >= 2 else 'expected a protocol-error and a generic path'
+    seen = set()
+    for p in ps:
+        is_protocol = None
+        for e in p.events:
+            if e.kind == 'cond':
+                k = strip_epoch(e.data['key'])
+                if k[0] == 'isinstance' and k[1] == exc and any('RSocketProtocolError' in str(c) for c in k[2]):
+                    is_protocol = bool(e.data['value'])
+        if is_protocol is None:
+            ok, detail = False, 'a path does not distinguish protocol errors from other exceptions'
+            continue
+        seen.add(is_protocol)
+        last = {}
+        for e in p.events:
+            if e.kind == 'store' and e.data['target'][0] == 'attr' and \
+                    strip_epoch(e.data['target'][1]) == strip_epoch(p.value.term):
+                last[e.data['target'][2]] = strip_epoch(e.data['value'].term)
+        if last.get('stream_id') != sid:
+            ok, detail = False, 'the frame is not put on the stream id given (%s)' % fmt_term(last.get('stream_id'))
+        code = last.get('error_code')
+        data = last.get('data')
+        if is_protocol:
+            if code != ('attr', exc, 'error_code'):
+                ok, detail = False, 'a protocol error is announced with %s, not with its own error code' % fmt_term(code)
+            if data is None or ('attr', exc, 'data') not in _flatten(data):
+                ok, detail = False, 'a protocol error\'s data is not what the frame carries'
+        else:
+            if not (isinstance(code, tuple) and code[0] == 'enum' and code[2] == 'APPLICATION_ERROR'):
+                ok, detail = False, 'an application failure is announced with %s, not APPLICATION_ERROR' % fmt_term(code)
+            if data is None or not any(_text_term(t, set()) and exc in _flatten(t) for t in _flatten(data)):
+                ok, detail = False, 'the text of the failure is not what the frame carries'
+    if ok and seen != {True, False}:
+        ok, detail = False, 'one of the two cases is missing'
+    rep.add(rule, 'exception_to_error_frame / own code and data for protocol errors, APPLICATION_ERROR otherwise', f, ok,
+            detail or 'stream id, code and data as raised on both paths')
+    # the reverse direction
+    fr = ('param', g.qualname, g.params()[0])
+    ps = [p for p in ctx.paths(g, None, inline_depth=0) if p.outcome == 'return']
+    ok, detail = len(ps) >= 2, '' if len(ps) >= 2 else 'expected two paths'
+    seen = set()
+    for p in ps:
+        app = None
+        for e in p.events:
+            if e.kind == 'cond':
+                k = strip_epoch(e.data['key'])
+                if k[0] == 'eq' and ('attr', fr, 'error_code') in k[1:3] and any(
+                        isinstance(x, tuple) and x[0] == 'enum' and x[2] == 'APPLICATION_ERROR' for x in k[1:3]):
+                    app = bool(e.data['value'])
+        if app is None:
+            ok, detail = False, 'a path does not test the frame\'s code against APPLICATION_ERROR'
+            continue
+        seen.add(app)
+        t = strip_epoch(p.value.term)
+        news = [e for e in p.events if e.kind == 'new' and strip_epoch(e.data['value'].term) == t]
+        carries_text = False
+        if app:
+            if news and news[0].data['cls'].is_subclass_of(perr):
+                ok, detail = False, 'an APPLICATION_ERROR frame becomes a protocol error'
+            carries_text = ('attr', fr, 'data') in _flatten(t)
+        else:
+            if not news or not news[0].data['cls'].is_subclass_of(perr):
+                ok, detail = False, 'a frame with a protocol error code becomes %s' % fmt_term(t)
+                continue
+            args = [strip_epoch(a.term) for a in news[0].data['args']]
+            kw = {k2: strip_epoch(v.term) for k2, v in news[0].data['kwargs'].items()}
+            code = kw.get('error_code', args[0] if args else None)
+            data = kw.get('data', args[1] if len(args) > 1 else None)
+            if code != ('attr', fr, 'error_code'):
+                ok, detail = False, 'the protocol error is built with %s, not the frame\'s code' % fmt_term(code)
+            carries_text = data is not None and ('attr', fr, 'data') in _flatten(data)
+        if not carries_text:
+            ok, detail = False, detail or 'the exception does not carry the frame\'s text'
+    if ok and seen != {True, False}:
+        ok, detail = False, 'one of the two cases is missing'
+    rep.add(rule, 'error_frame_to_exception / APPLICATION_ERROR -> generic, any other code -> protocol error with it', g,
+            ok, detail or 'code and text of the frame on both paths')
+    # the exception keeps what it was constructed with
+    init = perr.lookup('__init__')
+    ok = init is not None
+    detail = ''
+    if ok:
+        kept = {}
+        for n in walk_local(init.node):
+            if isinstance(n, ast.Assign) and isinstance(n.targets[0], ast.Attribute) and \
+                    isinstance(n.targets[0].value, ast.Name) and n.targets[0].value.id == 'self' and \
+                    isinstance(n.value, ast.Name):
+                kept[n.targets[0].attr] = n.value.id
+        if kept.get('error_code') != 'error_code' or kept.get('data') != 'data':
+            ok, detail = False, 'RSocketProtocolError.__init__ keeps %s' % kept
+    rep.add(rule, 'RSocketProtocolError.__init__ / keeps the code and the data it is constructed with', init or perr, ok,
+            detail or 'self.error_code = error_code; self.data = data')
+
+
+def _flatten(t):
+    out = []
+    if isinstance(t, tuple):
+        out.append(t)
+        for x in t:
+            out.extend(_flatten(x))
+    return out
+
+
+
+def rule_decoder_entry(ctx):
+    """Truncated and undecodable frames: the decoder entry refuses a short buffer with ParseError and an undecodable frame with CONNECTION_ERROR - or drops it when it carries the ignore flag - and otherwise hands back the frame it decoded (shared C02.h)."""
+    from .c02 import rule_decoder_entry as de
+    de(ctx, 'C02.h')
+
+
 RULES = [('C12.a', rule_a), ('C12.b', rule_b), ('C12.c', rule_c), ('C12.d', rule_d), ('C12.e', rule_e),
-         ('C12.f', rule_f), ('C14.f', rule_g), ('C12.b', rule_h), ('C13.d', rule_i), ('C12.g', rule_j), ('C12.h', rule_k), ('C12.i', rule_l), ('C12.j', rule_m), ('C12.k', rule_exception_text)]
+         ('C12.f', rule_f), ('C14.f', rule_g), ('C12.b', rule_h), ('C13.d', rule_i), ('C12.g', rule_j), ('C12.h', rule_k), ('C12.i', rule_l), ('C12.j', rule_m), ('C12.k', rule_exception_text), ('C12.l', rule_error_conversion), ('C02.h', rule_decoder_entry)]
